@@ -42,6 +42,9 @@ def run(ctx, impl_only=False):
     except Exception:
         pass
     rp = FAM.rich_pairs(ctx, 120 if ctx.thorough() else 30) + FAM.hostile_pairs(ctx, 160 if ctx.thorough() else 40)
+    # keys with a double underscore that is not at the start are ordinary keys: a difference under one is a difference
+    for k_ in ['user__id', 'created__gte', 'a__', '_x__y', 'x____', 'é__é']:
+        rp += [({k_: 1, 'z': 0}, {k_: 2, 'z': 0}), ({k_: 1, 'z': 0}, {'z': 0}), ({'z': 0}, {k_: None, 'z': 0}), ([0, {'q': {k_: [1, 2]}}], [0, {'q': {k_: [1, 3]}}]), ({k_: {k_: 'a'}}, {k_: {k_: 'b'}})]
     vals += [p[0] for p in rp[:len(rp) // 2]]
     for (v, w) in rp:
         for cfg in [ctx.rng.choice(CFGS) for _ in range(2)]:
@@ -160,6 +163,7 @@ def run(ctx, impl_only=False):
     align_sound(ctx)
     local_zone(ctx)
     close_floats(ctx)
+    long_inputs(ctx)
     if not impl_only:
         FAM.compare_with_model(ctx, reqs)
     import datetime as _dt2
@@ -173,6 +177,37 @@ def run(ctx, impl_only=False):
             (ctx.known_not_reproduced if ok else ctx.known_reproduced).append(fid if ok else '%s: %s' % (fid, findings[fid]['what_fails']))
         elif not ok:
             ctx.violate({'witness': fid}, 'boundary witness %s fails and is not a listed finding' % fid)
+
+
+def long_inputs(ctx):
+    """inputs with more than ten thousand members / items / keys, edited near their end, at the root and nested: the verdict does not depend on the size"""
+    from deepdiff import DeepDiff
+    n = 12000 + ctx.rng.randint(0, 500)
+    base = list(range(n))
+    late = n - 1 - ctx.rng.randint(0, 50)
+    early = ctx.rng.randint(0, 50)
+    cases = []
+    for pos in (late, early):
+        cases.append((set(base), (set(base) - {pos}) | {-7}))
+        cases.append((frozenset(base), frozenset(base) - {pos}))
+        cases.append(({'s': set(base), 'k': 1}, {'s': set(base) | {n + 5}, 'k': 1}))
+        cases.append(([0, set(map(str, base))], [0, set(map(str, base)) - {str(pos)} | {'new'}]))
+        cases.append((base, base[:pos] + [-1] + base[pos + 1:]))
+        cases.append((dict.fromkeys(base, 0), {**dict.fromkeys(base, 0), pos: 1}))
+    cases.append((set(base), set(base)))
+    cases.append(({'s': frozenset(base)}, {'s': frozenset(reversed(base))}))
+    for (a, b) in (cases if ctx.thorough() else cases[:6] + cases[-2:]):
+        ctx.evaluations += 1
+        case = {'t1': 'container of %d members: %s...' % (n, repr(a)[:60]), 't2': 'edited near position %s' % ('the end' if a != b else '(none)'), 'clause': 'long inputs'}
+        try:
+            d = DeepDiff(a, b)
+        except Exception as e:
+            ctx.violate(case, 'DeepDiff raised %s' % type(e).__name__); continue
+        ctx.count('long_inputs')
+        if a != b:
+            ctx.nontriv((repr(a)[:40], n, len(cases)))
+        if bool(d) != (a != b):
+            ctx.violate(case, 'empty diff although t1 != t2' if not d else 'equal values gave a non-empty diff')
 
 
 def close_floats(ctx):
